@@ -80,8 +80,20 @@ def run(tier, seed):
             # array form + public aliases
             arr = np.array([mu_x, mu_x])
             cmp("effective_rigidity_general", l, T.calc_effective_rigidity_general(arr, g, Rr, rho, l)[1], m_exp, dict(det, scale=sc, impl="array"))
-            cmp("complex_love_general", l, T.calc_complex_love_general(np.array([Jc, Jc]), arr, np.array([m_exp, m_exp]), l)[0], k_exp,
-                dict(det, scale=sc, impl="array"))
+            # the caller's arrays are reused across calls and must come back unchanged
+            Jarr, marr = np.array([Jc, Jc]), np.array([m_exp, m_exp])
+            keep = (Jarr.copy(), arr.copy(), marr.copy())
+            for rep in range(2):
+                for tag, w in (("array", lambda f: f), ("array/py", lambda f: f.py_func)):
+                    cmp("complex_love_general", l, w(L.complex_love_general)(Jarr, arr, marr, l)[0], k_exp,
+                        dict(det, scale=sc, impl=tag, repeat=rep))
+                    if l == 2:
+                        cmp("complex_love", 2, w(L.complex_love)(Jarr, arr, marr)[1], k_exp, dict(det, scale=sc, impl=tag, repeat=rep))
+                    if not (np.array_equal(Jarr, keep[0]) and np.array_equal(arr, keep[1]) and np.array_equal(marr, keep[2])):
+                        ck.violation({"fn": "complex_love_general", "clause": "inputs_unmodified", "l": l},
+                                     "complex_love(_general) modified its input arrays (compliance %r -> %r)" % (keep[0].tolist(), Jarr.tolist()),
+                                     dict(det, scale=sc, impl=tag))
+                        Jarr, arr, marr = keep[0].copy(), keep[1].copy(), keep[2].copy()
     ck.notes["worst_ulp_by_function"] = {k: round(v, 2) for k, v in worst.items()}
     # ---- quick_tidal_dissipation: love_number_by_orderl of a synchronous Maxwell body equals the closed form for every l
     from TidalPy.toolbox.quick_tides import quick_tidal_dissipation
@@ -98,6 +110,22 @@ def run(tier, seed):
         res = quick_tidal_dissipation(1e27, Rr, mass, g, rho, 0.4 * mass * Rr ** 2, viscosity=eta, shear_modulus=mu,
                                       rheology='maxwell', eccentricity=0.05, orbital_frequency=n, use_obliquity=False,
                                       max_tidal_order_l=lmax, eccentricity_truncation_lvl=2)
+        # array-valued material inputs (with obliquity tides, so that several degrees share a frequency) give, element by
+        # element, the Love numbers of the scalar calls
+        if t % 2 == 0:
+            etas = np.array([eta, eta * 3.0])
+            kwq = dict(shear_modulus=mu, rheology='maxwell', eccentricity=0.05, obliquity=0.3, orbital_frequency=n, spin_frequency=1.7 * n,
+                       use_obliquity=True, max_tidal_order_l=max(lmax, 3), eccentricity_truncation_lvl=2)
+            ra = quick_tidal_dissipation(1e27, Rr, mass, g, rho, 0.4 * mass * Rr ** 2, viscosity=etas, **kwq)
+            for idx in (0, 1):
+                rs = quick_tidal_dissipation(1e27, Rr, mass, g, rho, 0.4 * mass * Rr ** 2, viscosity=float(etas[idx]), **kwq)
+                for l in range(2, max(lmax, 3) + 1):
+                    va, vs = complex(np.asarray(ra['love_number_by_orderl'][l]).ravel()[idx]), complex(rs['love_number_by_orderl'][l])
+                    ck.case(("quick-array", t, idx, l), True)
+                    if relc(va, vs) > 1e-12:
+                        ck.violation({"fn": "quick_tidal_dissipation.love_number_by_orderl", "clause": "array_vs_scalar", "l": l},
+                                     "love_number_by_orderl[%d] element %d of an array-viscosity call = %r, scalar call = %r" % (l, idx, va, vs),
+                                     {"R": Rr, "rho": rho, "mu": mu, "eta": etas.tolist(), "n": n})
         # love_number_by_orderl[l] is documented as the average over the unique tidal frequencies that carry degree l
         # (e.g. l = 4 has a 2n mode through the closed-form G_41-2 entry): average the closed form over the same set
         from TidalPy.tides.modes.mode_manipulation import find_mode_manipulators
